@@ -177,6 +177,7 @@ static void ref_cmp(const Ctx *x, Ref *r) {            /* strcmp_s strcasecmp_s 
     if (!q.sterm) { r->verdict = V_ANY; return; }
     /* the folding compare works on Unicode text: an operand holding values above U+10FFFF (the dirty fill of an unterminated
      * operand) may be rejected, as wcsfc_s documents, or compared */
+    if (ci && (f->flags & F_WIDE) && !q.dterm) { r->verdict = V_ANY; return; }   /* wcsicmp_s folds whole strings: an operand without terminator inside dmax is rejected (ESNOSPC, pinned by its test) */
     if (ci && (f->flags & F_WIDE)) { for (long k = 0; k < q.dn; k++) if (q.d[k] > 0x10FFFF) { r->verdict = V_ANY; return; } for (long k = 0; k < q.sn; k++) if (q.s[k] > 0x10FFFF) { r->verdict = V_ANY; return; } }
     long i = 0;
     for (;; i++) {
